@@ -1958,7 +1958,19 @@ class C19(Spec):
 
     def search_cases(self, ctx, boost):
         rng = ctx.rng('S')
-        return [self.gen_case(rng) for _ in range(sizes(ctx, 1200, 40000) * (3 if boost else 1))]
+        return self.repeat_cases() + [self.gen_case(rng) for _ in range(sizes(ctx, 1200, 40000) * (3 if boost else 1))]
+
+    def repeat_cases(self):
+        # every fault rendered a second time in the same session (first without, then with a callback): each occurrence is
+        # reported, not only the first (seed C19_i: a cache of texts that macros.render left unchanged)
+        out = []
+        for name, text in self.FAULTS:
+            if text:
+                c = H([call(text, safeMode=0, reset=True, cb=False), call(text, safeMode=0, cb=True)])
+                c['variants'] = []
+                c['meta'] = {'fault': name, 'repeat': True}
+                out.append(c)
+        return out
 
     def cli_oracle(self, ctx, case, res):
         # rimupy: a well-formed input gives no diagnostic; a faulty one gives a diagnostic that names the fault
@@ -1975,7 +1987,7 @@ class C19(Spec):
     def oracle(self, ctx, case, impl, variants=()):
         if impl.get('timeout') or 'calls' not in impl:
             return None
-        c0 = impl['calls'][0]
+        c0 = impl['calls'][-1] if case['meta'].get('repeat') else impl['calls'][0]
         fault = case['meta']['fault']
         if c0.get('status') != 'ok':
             if fault:
